@@ -125,6 +125,20 @@ def run(phase, cases, ctx):
                 except Exception as e:  # noqa: BLE001
                     err = P.LibError('dense operator on pytree', e)
                     violations.append({'kind': 'library-raises', 'case': case, 'detail': f'{label}: {err}\n{err.tb}'})
+            # block values wider than the leaf dtype: the result must be numpy.einsum's, in value and dtype kind
+            if case.get('extra', [2]) == [2]:
+                for bdt, xdt in ((np.float32, np.int32), (np.complex64, np.float32), (np.float32, np.float16)):
+                    Bm = (B1 * (0.5 + 0.25j) if bdt == np.complex64 else B1 * 0.5 + 0.25).astype(bdt)
+                    xm = (x1 * 3 - 4).astype(xdt)
+                    try:
+                        opm = DenseBlockDiagonalOperator(jnp.asarray(Bm), jax.ShapeDtypeStruct(xs, xdt), sub)
+                        got = np.asarray(opm.mv(jnp.asarray(xm)))
+                        want = np.einsum(sub, Bm, xm)
+                        if got.dtype.kind != np.asarray(want).dtype.kind or got.shape != want.shape or not np.allclose(got, want, rtol=2e-3 if xdt == np.float16 else 1e-5):
+                            violations.append({'kind': 'mixed-dtype-mv', 'case': case, 'detail': f'blocks {np.dtype(bdt)} x leaf {np.dtype(xdt)}: got {got.dtype} {got.ravel()[:4]}, numpy.einsum {want.dtype} {np.asarray(want).ravel()[:4]}'})
+                    except Exception as e:  # noqa: BLE001
+                        err = P.LibError('dense operator with mixed dtypes', e)
+                        violations.append({'kind': 'library-raises', 'case': case, 'detail': f'{err}\n{err.tb}'})
             nontrivial.add(json.dumps(case))
         return {'n': len(cases), 'violations': violations, 'counters': counters, 'nontrivial': nontrivial, 'samples': cases[:1]}
 
@@ -170,6 +184,12 @@ def run(phase, cases, ctx):
                     counters['T_rejected'] += 1
                     if fam:
                         violations.append({'kind': 'family-transpose-rejected', 'case': one, 'detail': f'{sub}: {e}'})
+                    else:
+                        try:   # asking again must be rejected again (the answer may not depend on earlier requests)
+                            t2 = op.T
+                            violations.append({'kind': 'rejection-not-repeatable', 'case': one, 'detail': f'{sub}: first .T raised, second returned subscripts {getattr(t2, "subscripts", "?")}'})
+                        except ValueError:
+                            pass
                     continue
                 except Exception as e:  # noqa: BLE001
                     violations.append({'kind': 'transpose-wrong-exception', 'case': one, 'detail': f'{type(e).__name__}: {e}'})
